@@ -52,6 +52,11 @@ def suite_info(suite):
             "machash": T._mac_info[mac]["class"], "zlib": comp != "none"}
 
 
+def mode_of(suite):
+    """framing / verification mode of a suite: "classic" | "etm" | "aead" """
+    return suite_info(suite)["mode"]
+
+
 def framing_class(suite):
     """suites that share a framing class differ only in key length / digest"""
     i = suite_info(suite)
@@ -265,11 +270,29 @@ class Receiver:
         self.keys = keys
         self.hashf = hashf
         self.epoch = 0
+        self.need_rekey_exceptions = 0
+
+    def raise_need_rekey(self):
+        """put the receiving Packetizer in the state it is in between our KEXINIT and the peer's NEWKEYS:
+        need_rekey() is up (a counter has reached its limit)"""
+        p = self.t.packetizer
+        if hasattr(p, "_trigger_rekey"):
+            p._trigger_rekey()
+        p.REKEY_PACKETS = 1          # (and any packet read from now on raises it again)
 
     def read(self):
-        """one read_message; a NEWKEYS switches the inbound keys exactly as _parse_newkeys does.
+        """one turn of the read loop of Transport.run: read_message, NeedRekeyException -> try again;
+        a NEWKEYS switches the inbound keys exactly as _parse_newkeys does.
         returns (kind, message bytes incl. type byte, Message.seqno)"""
-        cmd, m = self.t.packetizer.read_message()
+        from paramiko.packet import NeedRekeyException
+        while True:
+            try:
+                cmd, m = self.t.packetizer.read_message()
+                break
+            except NeedRekeyException:
+                self.need_rekey_exceptions += 1
+                if self.need_rekey_exceptions > 100000:
+                    raise Machinery("read loop spins on NeedRekeyException")
         body = m.asbytes()
         if cmd == MSG_NEWKEYS and body == b"":
             if self.epoch >= len(self.keys):
@@ -476,11 +499,13 @@ def regions(off, res):
 
 class Pk:
     """one packet of a recorded stream: its bytes and the RFC regions relative to its start"""
-    __slots__ = ("raw", "kind", "mid", "reg", "orig")
+    __slots__ = ("raw", "kind", "mid", "reg", "orig", "suite", "epoch", "opens")
 
-    def __init__(self, raw, kind, mid, reg, orig=None):
+    def __init__(self, raw, kind, mid, reg, orig=None, suite=None, epoch=1, opens=""):
         self.raw, self.kind, self.mid, self.reg = raw, kind, mid, reg
         self.orig = raw if orig is None else orig      # the bytes the sender wrote
+        self.suite, self.epoch = suite, epoch           # algorithms / number of the key epoch it was sealed in
+        self.opens = opens                              # (NEWKEYS) framing mode of the epoch it opens
 
     def region_of(self, off):
         for name, (a, b) in self.reg.items():
@@ -489,18 +514,22 @@ class Pk:
         raise Machinery("offset %d is in no region of a %d byte packet %r" % (off, len(self.raw), self.reg))
 
     def copy(self):
-        return Pk(self.raw, self.kind, self.mid, self.reg, self.orig)
+        return Pk(self.raw, self.kind, self.mid, self.reg, self.orig, self.suite, self.epoch, self.opens)
 
 
 class Recorded:
     """an encrypted stream written by a real sender Packetizer, cut into packets, with the region
     boundaries obtained by the independent Opener"""
 
-    def __init__(self, suite, rnd, script, strict, lengths=None):
+    def __init__(self, suite, rnd, script, strict, lengths=None, later=()):
+        """later: the suites of the key epochs opened by the "K" steps of the script (default: unchanged)"""
         self.suite, self.strict, self.script = suite, strict, list(script)
         self.link = L = Link(suite, rnd, strict=strict)
         self.ledger = led = Ledger()
         self.info = suite_info(suite)
+        later = list(later)
+        cur, epoch = suite, 1
+        self.suites = [suite]
         w = L.wire
         self.plain = bytes(w.data)
         self.reader_error = None
@@ -517,7 +546,8 @@ class Recorded:
                 L.tx.send(msg)
                 kind = "data"
             else:
-                L.tx.switch(fresh_secret(rnd, L.hashf))
+                nxt = later.pop(0) if later else cur
+                L.tx.switch(fresh_secret(rnd, L.hashf), suite=nxt)
                 mid, kind, msg = 0, "newkeys", bytes([MSG_NEWKEYS])
             raw = bytes(w.data[start:])
             res = op.open(raw, seq)
@@ -526,17 +556,19 @@ class Recorded:
                 # are only names for where an edit lands, so fall back to what is certain: 4 length bytes, the
                 # padding-length byte, at least 4 bytes of padding before the MAC
                 self.reader_error = {k: v for k, v in res.items() if k != "message"}
-                mac, end = self.info["macsize"], len(raw)
+                mac, end = suite_info(cur)["macsize"], len(raw)
                 reg = {"length": (0, 4), "padlen": (4, 5), "payload": (5, end - mac - 4),
                        "padding": (end - mac - 4, end - mac), "mac": (end - mac, end)}
             else:
                 reg = regions(0, res)
-            self.pkts.append(Pk(raw, kind, mid, reg))
+            self.pkts.append(Pk(raw, kind, mid, reg, suite=cur, epoch=epoch, opens=mode_of(nxt) if step != "S" else ""))
             if step != "S":
-                op = Opener(suite, L.keys[-1][:2], L.keys[0][1], L.hashf)
+                cur, epoch = nxt, epoch + 1
+                self.suites.append(cur)
+                op = Opener(cur, L.keys[-1][:2], L.keys[0][1], L.hashf)
 
     def events(self):
-        return [{"a": "Send" if p.kind == "data" else "Switch", "i": p.mid, "r": "", "got": 0, "seq": -1} for p in self.pkts]
+        return [{"a": "Send" if p.kind == "data" else "Switch", "i": p.mid, "r": p.opens, "got": 0, "seq": -1} for p in self.pkts]
 
 
 def _effective(pk, i, off, byte, deleting):
